@@ -1,6 +1,7 @@
 package main
 
 import (
+	"os"
 	"golang.org/x/tools/go/ssa"
 )
 
@@ -55,6 +56,12 @@ func registerExtra(p *Program) {
 			present = m.tb.Ite(m.matchWrite(w, key), m.tb.Bool(w.val != nil), present)
 		}
 		return present
+	}
+	I[vpPath+"Bound"] = func(m *Machine, fr *Frame, fn *ssa.Function, a []Value) Value {
+		if os.Getenv("VERIF_TIER") == "thorough" {
+			return a[1]
+		}
+		return a[0]
 	}
 	I[vpPath+"SetIf"] = func(m *Machine, fr *Frame, fn *ssa.Function, a []Value) Value {
 		c := a[0].(*Term)
